@@ -1,4 +1,5 @@
 import Httpcache.Proofs.VaryKey
+import Httpcache.Model.IndexJson
 /- The variant index: no two references of an index describe the same variant (invariant of StoreResponse),
    hence every index reachable in any history is bounded by the number of distinct variants. -/
 namespace Httpcache
@@ -148,5 +149,45 @@ theorem reachable_index_bounded (T : List (Str × Str × List (Str × Str))) (re
     refs.length ≤ T.length :=
   let ⟨hnd, hT⟩ := reachable_inv T refs h
   index_size_bounded T refs hnd hT
+
+/-! ### the strings of a reference through the JSON index -/
+
+/-- the marker of the model is the constant of internal/entry.go (regenerated table) -/
+theorem jsonOpaquePrefix_is_the_codes : jsonOpaquePrefix.map Char.toNat = Generated.indexOpaquePrefix := by decide
+
+theorem stripPrefix_append (p s : Str) : stripPrefix p (p ++ s) = some s := by
+  induction p with
+  | nil => rfl
+  | cons c cs ih => simp [stripPrefix, ih]
+
+/-- every string — valid UTF-8 or not, looking like an escaped one or not — comes back from the index
+    exactly as it was written, given that JSON carries valid UTF-8 unchanged and base64 decodes what it
+    encoded -/
+theorem index_string_roundtrip (validUtf8 : Str → Bool) (b64 : Str → Str) (unb64 : Str → Option Str)
+    (hb : ∀ x, unb64 (b64 x) = some x) (s : Str) :
+    jsonOriginalString unb64 (jsonSafeString validUtf8 b64 s) = s := by
+  unfold jsonSafeString
+  by_cases h : (validUtf8 s && (stripPrefix jsonOpaquePrefix s).isNone) = true
+  · simp only [h, ↓reduceIte]
+    simp only [Bool.and_eq_true, Option.isNone_iff_eq_none] at h
+    unfold jsonOriginalString
+    rw [h.2]
+  · simp only [h, Bool.false_eq_true, ↓reduceIte]
+    unfold jsonOriginalString
+    rw [stripPrefix_append]
+    simp only [hb, Option.getD_some]
+
+/-- and what is written is always something JSON carries unchanged: the string itself when it is valid
+    UTF-8, else ASCII (prefix and base64 alphabet), given that base64 output and the prefix are valid -/
+theorem index_string_is_json_safe (validUtf8 : Str → Bool) (b64 : Str → Str)
+    (hv : ∀ x, validUtf8 (jsonOpaquePrefix ++ b64 x) = true) (s : Str) :
+    validUtf8 (jsonSafeString validUtf8 b64 s) = true := by
+  unfold jsonSafeString
+  by_cases h : (validUtf8 s && (stripPrefix jsonOpaquePrefix s).isNone) = true
+  · simp only [h, ↓reduceIte]
+    simp only [Bool.and_eq_true] at h
+    exact h.1
+  · simp only [h, Bool.false_eq_true, ↓reduceIte]
+    exact hv s
 
 end Httpcache
